@@ -196,6 +196,38 @@ def execute(ch, nports, seq, assign, res, case, raise_bound):
             bw.close()
 
 
+CB_KINDS = ["method", "function", "lambda", "partial", "temporary-object-method", "callable-object", "list-append"]
+
+
+def callback_kinds(res):
+    """The callback in every shape users write it (the statement says 'the callback', whatever kind of callable it is)."""
+    import gc
+
+    set_zone("UTC")
+    for kind in CB_KINDS:
+        case = {"cb_kind": kind}
+        with Clock(1_700_000_000.0), Capture():
+            bw = BridgeWorld(2, cb_kind=kind)
+            try:
+                bw.start()
+                gc.collect()
+                sent = []
+                for i, t in enumerate(("V4", "POWER_PLUG", "RUNNER", "BREEZE", "MINI")):
+                    name = "k%d" % i
+                    bw.send(bw.ports[i % 2], B.encode(t, name=name))
+                    sent.append(name)
+                    bw.settle()
+                    if i == 1:
+                        gc.collect()
+                got = sorted(d.name for d in bw.calls)
+                res.case(("cb", kind))
+                res.traces += 1
+                if got != sorted(sent):
+                    res.violation("callback-kind-not-served", case, f"callback given as {kind}: sent {sent}, delivered {got}", sent, got)
+            finally:
+                bw.close()
+
+
 def combos(tier):
     """(nports, seq, assign) triples."""
     out = []
@@ -231,7 +263,7 @@ def raise_bound(tier):
 
 def jobs(tier, seed):
     n = 64 if tier == "thorough" else 16
-    return [{"tier": tier, "i": i, "n": n} for i in range(n)] + [{"tier": tier, "long": i, "n": 8} for i in range(8)]
+    return [{"tier": tier, "i": i, "n": n} for i in range(n)] + [{"tier": tier, "long": i, "n": 8} for i in range(8)] + [{"tier": tier, "cbkinds": True}]
 
 
 def cost(label, choice):
@@ -243,6 +275,9 @@ def run_job(job):
     tier = job["tier"]
     if "long" in job:
         long_lived(res, job)
+        return res
+    if "cbkinds" in job:
+        callback_kinds(res)
         return res
     rb = raise_bound(tier)
     diverged = []
@@ -335,6 +370,9 @@ def long_lived(res, job):
 
 def replay(case):
     res = Res()
+    if "cb_kind" in case:
+        callback_kinds(res)
+        return [v for v in res.violations if v["case"] == case]
     if "long" in case:
         long_lived(res, {"long": case["long"], "n": case["n"], "tier": case["tier"]})
         return res.violations
